@@ -207,14 +207,14 @@ class Mirror:
             return list(v.items())
         if k[0] == "obj":
             return [(f, getattr(v, f)) for f, _, _ in self.reg.env["defs"][k[1]][3] if hasattr(v, f)]
-        if k[0] in ("seq", "named"):
+        if k[0] == "named":
+            return list(zip([f for f, _, _ in self.reg.env["defs"][k[1]][3]], list(v)))
+        if k[0] == "seq":
             l = list(v)
             if not l:
                 return []
             if self.pairlike(l[0]):
                 return [self.unpack2(x) for x in l]
-            if k[0] == "named":
-                return list(zip([f for f, _, _ in self.reg.env["defs"][k[1]][3]], l))
             return [(self.index(i), x) for i, x in enumerate(l)]
         return self.items_scalar(v)
 
@@ -281,7 +281,7 @@ class Mirror:
         if k == "union":
             ts = list(d[2])
             if any(t == ("none",) for t in ts):
-                ts = [ts[-1]] + ts[:-1]
+                ts = [t for t in ts if t == ("none",)] + [t for t in ts if t != ("none",)]
             return self.first_ok([lambda v, t=t: self.unm(t, v) for t in ts], x)
         if k in ("name", "ref", "aliasstr"):
             n = d[1] if k != "aliasstr" else d[2]
@@ -368,6 +368,9 @@ class Group:
         self.mirror = Mirror(self.reg, suppressed["u"])
         self.sup = suppressed
         self.cases = []       # (dir, root index, enc input, enc observed, description)
+        self.orders = {"u": {}, "m": {}}     # emitted ty -> emitted node list (graph.static_order as observed)
+        self.order_problems = []
+        self.reg.build_reverse(roots)
 
     def close(self):
         impl.drop_module(self.env["module"])
@@ -410,6 +413,68 @@ class Group:
         self.cases.append((direction, ri, enc_in, enc_obs, desc))
         return obs
 
+    def collect_orders(self, pytype, depth=0):
+        """graph.static_order of pytype and, recursively, of everything a delayed proxy may resolve"""
+        from typelib import graph
+        from typelib.py import refs
+        impl.clear_caches()
+        d = self.reg.desc_of(pytype)
+        if d is None:
+            self.order_problems.append(f"no description for {pytype!r}")
+            return
+        key = self.reg.emit_ty(d if d[0] != "ref" else ("name", d[1]))
+        if key in self.orders["u"] or depth > 12:
+            return
+        try:
+            with warnings.catch_warnings():
+                warnings.simplefilter("ignore")
+                nodes = list(graph.static_order(pytype))
+        except BaseException as e:
+            self.order_problems.append(f"static_order({pytype!r}) raised {e!r}")
+            return
+        out, later = [], []
+        for n in nodes:
+            dt, du = self.reg.desc_of(n.type), self.reg.desc_of(n.unwrapped)
+            if dt is None or du is None:
+                self.order_problems.append(f"no description for node {n!r}")
+                return
+            out.append("{| ntype := %s; nunw := %s; ncyc := %s |}" % (
+                self.reg.emit_ty(dt), self.reg.emit_ty(du), coq_bool(bool(n.cyclic))))
+            if n.cyclic:
+                later.append(refs.evaluate(n.type))
+        self.orders["u"][key] = coq_list(out, "node")
+        for tgt in later:
+            self.collect_orders(tgt, depth + 1)
+
+    def emit_mech(self, name: str, strict=False) -> str:
+        """like emit, plus the observed node orders; bad = mechanism vs observation, bad2 = mechanism vs spec"""
+        base = self.emit(name, strict)
+        orders = coq_list([f"({k}, {v})" for k, v in self.orders["u"].items()], "(ty * list node)")
+        extra = (f"Definition orders : list (ty * list node) :=\n  {orders}.\n"
+                 f"Definition bad_mech := mismatches (mech_case_ok rt E orders {FUEL} {coq_bool(strict)}) cases.\n"
+                 f"Definition bad_agree := mismatches (mech_spec_agree rt E orders {FUEL}) cases.\n")
+        return base.replace(f"End {name}.\n", extra + f"End {name}.\n")
+
+    def atom_eq_pairs(self):
+        """distinct atoms that are == with equal hash (set / dict collapse them)"""
+        buckets = {}
+        for i, o in enumerate(self.reg.atom_objs):
+            try:
+                h = hash(o)
+            except Exception:
+                continue
+            buckets.setdefault(h, []).append(i)
+        out = []
+        for ids in buckets.values():
+            for x in range(len(ids)):
+                for y in range(x + 1, len(ids)):
+                    try:
+                        if self.reg.atom_objs[ids[x]] == self.reg.atom_objs[ids[y]]:
+                            out.append((ids[x], ids[y]))
+                    except Exception:
+                        pass
+        return out
+
     def unhashable_classes(self):
         out = []
         for cls, n in self.reg.classes.items():
@@ -433,7 +498,9 @@ class Group:
             f"  {emit_tbl(t.vs, '(pv * res (list pv))')}\n  {emit_tbl(t.its, '(pv * res (list (pv * pv)))')}\n"
             f"  {emit_tbl(t.pl, '(pv * bool)')}\n"
             f"  {coq_list([coq_pair(coq_nat(i), v) for i, v in t.ix.items()], '(nat * pv)')}\n"
-            f"  {coq_list([coq_nat(n) for n in self.unhashable_classes()], 'nat')}\n  {none_enc}\n  {sup}.\n"
+            f"  {coq_list([coq_nat(n) for n in self.unhashable_classes()], 'nat')}\n"
+            f"  {coq_list([coq_pair(coq_nat(a), coq_nat(b)) for a, b in self.atom_eq_pairs()], '(nat * nat)')}\n"
+            f"  {none_enc}\n  {sup}.\n"
             f"Definition cases : list case :=\n  {cases}.\n"
             f"Definition bad := mismatches (case_ok rt E {FUEL} {coq_bool(strict)}) cases.\n"
             f"End {name}.\n"
@@ -442,6 +509,40 @@ class Group:
 
 HEADER = ("From Coq Require Import List. Import ListNotations.\n"
           "Require Import TL.Model.Core TL.Model.CoreTables.\n")
+HEADER_MECH = HEADER + "Require Import TL.Model.Build TL.Model.BuildTables.\n"
+
+
+def evaluate_groups_mech(run, groups, tag, per_file=10, strict=False):
+    """Evaluate spec AND mechanism; returns (bad_spec, bad_mech, bad_agree) lists of (group, case index)."""
+    import lib
+    files, order = {}, []
+    for fi in range(0, len(groups), per_file):
+        chunk = groups[fi:fi + per_file]
+        text = HEADER_MECH
+        names = []
+        for gi, g in enumerate(chunk):
+            nm = f"G{fi + gi}"
+            text += g.emit_mech(nm, strict)
+            names.append(nm)
+        for nm in names:
+            text += f"Eval vm_compute in {nm}.bad.\nEval vm_compute in {nm}.bad_mech.\nEval vm_compute in {nm}.bad_agree.\n"
+        fname = f"cases_{tag}_{fi // per_file}.v"
+        files[fname] = text
+        order.append((fname, chunk))
+    results = run.coq_eval_many(files, timeout=900)
+    outs = ([], [], [])
+    for fname, chunk in order:
+        res = results[fname]
+        if res is None or len(res) != 3 * len(chunk):
+            run.oblige(f"evaluate:{fname}", False, "model evaluation did not compile")
+            for g in chunk:
+                for o in outs:
+                    o += [(g, i) for i in range(len(g.cases))]
+            continue
+        for gi, g in enumerate(chunk):
+            for k in range(3):
+                outs[k].extend((g, i) for i in lib.parse_nat_list(res[3 * gi + k]))
+    return outs
 
 
 def evaluate_groups(run, groups, tag, per_file=12, strict=False):
